@@ -75,6 +75,7 @@ package armor
 //@   ensures#type (err != nil && err != io.EOF) ==> typeis(err, "*filippo.io/age/armor.Error")                                       [C08 C14]
 //@   ensures#clean err != nil ==> len(r.unread) == 0                                                                                [C08 C13]
 //@   ensures#nonempty (len(old(r.unread)) == 0 && old(r.err) == nil && err == nil) ==> len(r.unread) + n > 0                         [C08]
+//@   ensures#shortlast (len(old(r.unread)) == 0 && old(r.err) == nil && err == nil && len(r.unread) + n < 48) ==> r.err != nil        [C08]
 //@   ensures#oneline (len(old(r.unread)) == 0 && old(r.err) == nil && err == nil && old(r.started)) ==> len(r.unread) + n <= 48       [C08 C12]
 //@   ensures#buffered len(old(r.unread)) > 0 ==> err == nil && n == min(len(p), len(old(r.unread))) && sub(bytes(p), 0, n) == sub(old(bytes(r.unread)), 0, n) && r.r.$rem == old(r.r.$rem)   [C08 C12]
 //@   call Decode#1 requires len(arg2) <= 64 && len(arg1) == 48 && arg0.$strictstd                                                    [C05 C08 C14]
